@@ -196,6 +196,43 @@ def o_handler(rec: Recorder, case, soft=False):
                 if documented and a is not expect and (p is secret or wrong_differs):
                     rec.fail(f"C07/variant-verify/{name}/{label}", f"{name}: documented re-encoding ({label}) verifies {a} for the {'right' if expect else 'wrong'} password", "handler_roundtrip", case, [v, a], expect, soft=soft)
                     return
+    # genhash(secret, <hash>) -- the documented (deprecated) two-step API -- reproduces the hash for the right password
+    if hasattr(h, "genhash") and not f.disabled and not f.plaintext:
+        st, gh = call(h.genhash, secret, hs, **pctx)
+        if st == "err" or gh != hs:
+            rec.fail(f"C07/genhash/{name}", f"{name}: genhash(secret, hash) does not reproduce the hash", "handler_roundtrip", case, repr(gh), hs, soft=soft)
+            return
+    # config-only form (settings without digest): parses to the same settings, renders back to itself, and genhash() against it reproduces the hash
+    if has_fs and f.salt and not f.plaintext and not f.disabled and not case.get("ref_made"):
+        obj0 = h.from_string(hs, **_fs_ctx(h, pctx))
+        if getattr(obj0, "checksum", None) is not None:
+            obj0.checksum = None
+            st, cfg = call(obj0.to_string)
+            if st == "ok" and cfg != hs:
+                st, back = call(lambda: h.from_string(cfg, **_fs_ctx(h, pctx)))
+                if st == "err" and isinstance(back, ValueError):
+                    rec.count("config-only-form-not-accepted")  # which formats still read the pre-1.7 config-only strings is not documented: judged only when accepted
+                    back = None
+                elif st == "err":
+                    raise back
+            if st == "ok" and cfg != hs and back is not None:
+                ps0, ps1 = parsed_public(back), parsed_public(h.from_string(hs, **_fs_ctx(h, pctx)))
+                if back.checksum is not None or back.to_string() != cfg or ps0 != ps1:
+                    rec.fail(f"C07/config-string-differs/{name}", f"{name}: the config-only form parses to other settings / renders differently", "handler_roundtrip", case, [cfg, ps0], ps1, soft=soft)
+                    return
+                st, gh = call(h.genhash, secret, cfg, **pctx)
+                if st == "err" or gh != hs:
+                    rec.fail(f"C07/config-string-genhash/{name}", f"{name}: genhash(secret, <config string>) does not reproduce the hash", "handler_roundtrip", case, repr(gh), hs, soft=soft)
+                    return
+    # normhash() (bcrypt family): canonical form of accepted variants, identity on canonical and foreign strings
+    if hasattr(h, "normhash") and "bcrypt" in name and has_fs:
+        for label, v, documented in variants(name, hs, settings):
+            if documented and h.normhash(v) != hs:
+                rec.fail(f"C07/normhash/{name}", f"{name}.normhash() does not return the canonical form of an accepted variant ({label})", "handler_roundtrip", case, h.normhash(v), hs, soft=soft)
+                return
+        if h.normhash(hs) != hs or h.normhash("$1$abc$x") != "$1$abc$x":
+            rec.fail(f"C07/normhash/{name}", f"{name}.normhash() changes a canonical / foreign string", "handler_roundtrip", case, None, None, soft=soft)
+            return
     # prefix wrappers
     w = h
     if hasattr(w, "wrapped") and hasattr(w, "prefix") and not f.plaintext:
@@ -211,6 +248,10 @@ def o_handler(rec: Recorder, case, soft=False):
         rewrapped = w.prefix + ih[len(w.orig_prefix or ""):]
         if w.identify(rewrapped) is not True or w.verify(secret, rewrapped, **pctx) is not True or (wrong_differs and w.verify(wrong, rewrapped, **pctx) is not False):
             rec.fail(f"C07/wrapper-wrap/{name}", f"{name}: wrapping a hash of the wrapped hasher does not give a valid {name} hash", "handler_roundtrip", case, rewrapped, True, soft=soft)
+
+
+def parsed_public(obj):
+    return {k: getattr(obj, k, None) for k in ("rounds", "salt", "ident", "variant", "version", "block_size", "parallelism")}
 
 
 def _fs_ctx(h, pctx):
@@ -262,6 +303,29 @@ def o_inspect(rec: Recorder, case, soft=False):
         return
     if insp(out) != info:
         rec.fail(f"C07/inspect-reparse/{kind}", f"libpass {kind}: re-inspecting the rendered record gives a different record", "inspect", case, None, None, soft=soft)
+        return
+    if kind == "bcrypt":
+        # the record's settings are the ones the hash was made with: its salt/config string is the first 29 characters ($2b$NN$ + 22)
+        if info.bcrypt_salt != text[:29].encode("ascii") or (info.prefix, "%02d" % info.rounds, info.salt, info.hash) != (text[1:3], text[4:6], text[7:29], text[29:]):
+            rec.fail("C07/inspect-settings/bcrypt", "libpass bcrypt record does not report the settings of the hash (prefix, cost, salt, config string)", "inspect", case, repr(info.bcrypt_salt), text[:29], soft=soft)
+
+
+@oracle(PROPERTY, "phc_b64")
+def o_phc_b64(rec: Recorder, case, soft=False):
+    """case: {text}: the PHC field codec of libpass is unpadded URL-safe base64 and decodes what it encodes"""
+    import base64
+
+    from libpass.inspect.phc import phc_b64_decode, phc_b64_encode
+
+    t = case["text"]
+    enc = phc_b64_encode(t)
+    want = base64.urlsafe_b64encode(t.encode()).decode().rstrip("=")
+    if enc != want or "=" in enc:
+        rec.fail("C07/phc-b64/encode", "phc_b64_encode is not unpadded URL-safe base64", "phc_b64", case, enc, want, soft=soft)
+        return
+    st, dec = call(phc_b64_decode, enc)
+    if st == "err" or dec != t:
+        rec.fail("C07/phc-b64/roundtrip", "phc_b64_decode(phc_b64_encode(x)) != x", "phc_b64", case, repr(dec), t, soft=soft)
 
 
 @oracle(PROPERTY, "inspect_candidate")
@@ -285,7 +349,7 @@ def o_inspect_candidate(rec: Recorder, case, soft=False):
         rec.fail(f"C07/inspect-render/{kind}", "libpass inspect_phc(h).as_str() != h for a string it recognises", "inspect_candidate", case, info.as_str(), text, soft=soft)
 
 
-ORACLES = {"handler_roundtrip": o_handler, "inspect": o_inspect, "inspect_candidate": o_inspect_candidate}
+ORACLES = {"handler_roundtrip": o_handler, "inspect": o_inspect, "inspect_candidate": o_inspect_candidate, "phc_b64": o_phc_b64}
 
 
 # ---- tasks ------------------------------------------------------------------------------------------
@@ -368,6 +432,23 @@ def t_small_fields(rec, seed, tier):
         for salt in ("....", "zzzz", "ab./"):
             o_handler(rec, {"name": "bsdi_crypt", "settings": {"rounds": r, "salt": salt}, "ctx": {}, "secret": "pw", "ref_made": True}, soft=True)
             n += 1
+    # libpass PHC field codec: every length 0..40 (all padding residues), ASCII and multi-byte text
+    for ln in range(0, 41):
+        for alpha in ("a", "xyz-_/+", "é€"):
+            o_phc_b64(rec, {"text": (alpha * 41)[:ln]}, soft=True)
+            n += 1
+    # django_des_crypt in the Django 1.4+ rendering (empty salt field): renders 13 characters after 'crypt$$' and parses back to the same settings
+    from passlib.hash import django_des_crypt
+
+    style14 = type("style14", (django_des_crypt,), {"use_duplicate_salt": False})
+    for salt in ("ab", "./", "zZ"):
+        hs14 = style14.using(salt=salt).hash("secret")
+        n += 1
+        ok = hs14.startswith("crypt$$" + salt) and len(hs14) == len("crypt$$") + 13 and django_des_crypt.from_string(hs14).salt == salt and style14.from_string(hs14).to_string() == hs14 \
+            and django_des_crypt.verify("secret", hs14) and not django_des_crypt.verify("Secret", hs14)
+        if not ok:
+            rec.fail("C07/django-des-elided-salt-render", "django_des_crypt rendered without the duplicate salt field does not parse back / verify", "handler_roundtrip",
+                     {"name": "django_des_crypt", "settings": {"salt": salt}, "ctx": {}, "secret": "secret"}, hs14, None, soft=True)
     rec.ev(n)
     rec.nt_bulk(n)
     rec.sample("small-fields", {"scrypt$7$ ln": [1, 5], "bcrypt final salt chars": ".Oeu", "sha-crypt salt sizes": [0, 16]})
